@@ -2,6 +2,7 @@ import LLRP.Model.SendFor
 import LLRP.Gen.Schema
 import LLRP.Gen.MsgTables
 import LLRP.Gen.Consts
+import LLRP.Proofs.SeqSendFor
 /-!
 # C12 — LLRP status codes become errors faithfully
 
@@ -11,6 +12,31 @@ reader.go is the differential correspondence (scripted peer answering real `Send
 -/
 namespace LLRP.C12
 open LLRP
+
+/-- **The source is the model.** `Gen.llrp_Client_SendFor` and `Gen.llrp_LLRPStatus_Err` are `Client.SendFor` (reader.go) and
+`LLRPStatus.Err` (params.go) as go2seq translates them on this run; `SeqGlue.sfEnv` says what the calls they make mean
+(`SendMessage` returns the reader's reply, the caller's value decodes with the codec model of its table entry, `Status()`
+is the decoded LLRPStatus parameter). For every table, expected type, reply type and payload, the class of the error the
+translated source returns — nil / a `*StatusError` with the reader's status code reachable through `errors.As` / another
+error — is the class of the model's outcome. -/
+theorem src_sendFor (S : Schema) (exp : Container) (replyT : Nat) (payload : Bytes) :
+    SeqGlue.classOf (Gen.llrp_Client_SendFor (SeqGlue.sfEnvFor exp.statusable) ⟨S, exp, replyT, payload, none⟩ () () ()).2
+      = SeqGlue.outcomeClass (sendFor S exp replyT payload) :=
+  SeqGlue.src_sendFor S exp replyT payload
+
+/-- … and the caller's response value is left as the model says: decoded on success and on a status carried by the
+expected type, untouched for an ERROR_MESSAGE or any other type -/
+theorem src_sendFor_value (S : Schema) (exp : Container) (replyT : Nat) (payload : Bytes)
+    (hne : sendFor S exp replyT payload ≠ .decodeErr) :
+    (Gen.llrp_Client_SendFor (SeqGlue.sfEnvFor exp.statusable) ⟨S, exp, replyT, payload, none⟩ () () ()).1.inVal
+      = SeqGlue.outcomeVal (sendFor S exp replyT payload) :=
+  SeqGlue.src_sendFor_value S exp replyT payload hne
+
+/-- the translated `LLRPStatus.Err`: nil exactly for status Success, otherwise a `*StatusError` carrying the code -/
+theorem src_status_err (st : Val) :
+    (Gen.llrp_LLRPStatus_Err SeqGlue.errEnv () st).2 =
+      if SeqGlue.codeOf st = 0 then GoSeq.GoErr.nil else GoSeq.GoErr.status (SeqGlue.codeOf st) :=
+  SeqGlue.err_spec st
 
 /-- success exactly when the reply has the expected type, decodes, and (for responses that carry one) its status is
 Success -/
